@@ -6,6 +6,10 @@ import json, os
 ALL = ["C%02d" % i for i in range(1, 53)]
 
 CLAIMED = {
+ "C45": dict(
+   text="Kernel: location type IDs round-trip: for address locations (arbitrary 8 address bytes), transaction/script locations (three arbitrary ID bytes), string and identifier locations (1..3 arbitrary bytes without '.'), each with a qualified identifier of 0..3 arbitrary bytes, Location.TypeID followed by the kind's decoder returns the same location and the same qualified identifier (address locations: the contract name is its first component), without crashing; hex encoding/decoding and strings.SplitN run from source.",
+   note="Bounds as stated. Locations containing '.', the decoder dispatch table, type IDs and conversions of sema/static/external type graphs and run-time type constructors are outside the claim.",
+   design="5 C45"),
  "C42": dict(
    text="Kernel: the canonical-order comparators of CCF's deterministic mode (bytewiseFieldSorter, bytewiseCadenceTypeIDSorter, bytewiseKeyValuePairSorter) on three arbitrary pairwise-distinct keys of 0..3 bytes are strict total orders (asymmetric, total, transitive) equal to the reference order, and agree with the predicates the decoder enforces (stringsAreSortedBytewise / bytesAreSortedBytewise), which reject duplicates; hence the sorted sequence and the encoding do not depend on input order.",
    note="Keys <= 3 bytes. CBOR encoding/decoding, value round trips and decoder robustness (fxamacker/cbor, reflection-free but streaming over value graphs) are outside the claim.",
@@ -19,8 +23,8 @@ CLAIMED = {
    note="Kernel of C06: structure is concrete on every path (the symbolic choices are forked), so the solver's work is constant evaluation of the path assertions; bound: 3 entitlements, <= 2 relations. The checker's member-access path and run-time authorization checks (programs) are outside.",
    design="3 C06"),
  "C32": dict(
-   text="Int (values.IntValue) + - * / % unary minus with operands up to 8 words, and | ^ & << >> with operands up to 2 words and shifts < 256: the real operation runs with a harness gauge that sums the BigInt memory it meters (real estimators, real wiring); solver shows metered bytes >= 8 * word length of the result for every operand pair in the bound, word lengths handled symbolically without case split.",
-   note="Bounds: 8-word operands (int-mode), 2-word operands and shifts < 256 (bv-mode, big.Int model width 448). UInt and the fixed 16/32-byte estimates of the 128/256-bit types are not covered yet. Metering order (before vs after computing) is not observable by the harness.",
+   text="Int (values.IntValue) and UInt + - * / % unary minus with operands up to 8 words, | ^ & << >> of Int, UInt, Int128, UInt128, Word128 (256-bit types in thorough) with operands up to 2 words and shifts < 256, and the two shift estimators alone for shifts < 2^20 against the exact length formula: the real operation runs with a harness gauge that sums the BigInt memory it meters (real estimators, real wiring); solver shows metered bytes >= 8 * word length of the result for every operand pair in the bound, word lengths handled symbolically without case split.",
+   note="Bounds: 8-word operands (int-mode), 2-word operands and shifts < 256 (bv-mode, big.Int model width 448). Metering order (before vs after computing) is not observable by the harness.",
    design="3 C32"),
  "C21": dict(
    text="InclusiveRange for all 20 integer/Word element types: the real NewInclusiveRangeValueWithStep (construction fails exactly for step 0 / moving away from end), NewInclusiveRangeIterator + Next (first 3 (thorough 5) elements from construction, and one step from an arbitrary member position: a one-step induction over the position) and InclusiveRangeContains, against the exact arithmetic sequence in unbounded integers, for every start/end/step/needle of the type.",
@@ -31,16 +35,16 @@ CLAIMED = {
    note="Full width for sized types (big.Int model width 272/528 bits, a checked bound). Int/UInt: |value| < 2^128 and shift < 128, or shift beyond uint64 (overflow error allowed); shifts in [128,2^64) of unbounded ints are outside. values.SignedBigIntToSizedBigEndianBytes / BigEndianBytesToSignedBigInt are replaced by exact summaries that C17 verifies against the real bodies.",
    design="3 C14"),
  "C15": dict(
-   text="Fix64 and UFix64 + - * / % and unary minus: solver shows for every pair of raw 64-bit operands that the result is the exact rational result truncated toward zero at scale 8 or the failure is the right overflow/underflow/division-by-zero error; % is a - trunc(a/b)*b and fails only when the quotient is unrepresentable (two arithmetic lemmas are discharged separately and used as cuts).",
-   note="Fix64/UFix64 only, full width. Fix128/UFix128 arithmetic and multiplyDivide delegate to the external github.com/onflow/fixed-point library and are outside this claim (listed in evidence assumptions).",
+   text="Fix64, UFix64, Fix128, UFix128 + - * / % , unary minus and multiplyDivide (every rounding rule): for Fix64/UFix64 solver shows for every pair of raw 64-bit operands that the result is the exact rational result truncated toward zero at scale 8 or the failure is the right overflow/underflow/division-by-zero error; % is a - trunc(a/b)*b and fails only when the quotient is unrepresentable (two arithmetic lemmas are discharged separately and used as cuts); for Fix128/UFix128 cadence's wrappers (choice of library call and rounding mode, error remapping) run for real against a contract stub of github.com/onflow/fixed-point.",
+   note="Full width. Trusted for Fix128/UFix128: the external library honours its documented contract for FMD/Mul/Div/Mod (exact result rounded by the mode; overflow/negative-overflow/underflow/division-by-zero errors), which fixlib.go encodes; its Add/Sub/Neg run from source. Fix64/UFix64 multiplyDivide (64-bit library FMD) is outside.",
    design="3 C15"),
  "C16": dict(
    text="All 576 ordered pairs among the 20 integer/Word types, Fix64/UFix64 and Fix128/UFix128: the real Convert<T> is executed symbolically on an arbitrary source value; solver shows the result has the same mathematical value (fixed-point to integer truncates toward zero, Word targets reduce mod 2^n) or the conversion fails with an overflow/underflow error exactly when the value is not representable.",
    note="Full source width (Int/UInt unbounded; Fix128/UFix128 as arbitrary 128-bit word pairs). The WithRounding variants are outside (external library). Either error kind is accepted for out-of-range values.",
    design="3 C16"),
  "C17": dict(
-   text="Byte encodings: for every integer, Word and fixed-point type (incl. Fix128/UFix128), fromBigEndianBytes(toBigEndianBytes(x)) == x for every x, the encoding is never longer than the type's size, and the converters never crash and stay in range on every byte array of every allowed length; plus the real bodies of the two byte/sign helpers that other checks summarise.",
-   note="Bytes part only. Int/UInt bounded by |x| < 2^128. toString/fromString (strconv, big.Int.Text, fmt) and Address/Path string forms are outside the claim; the array-value layer and the wrapper's length gate are outside.",
+   text="Byte and string encodings: fromString of all 20 integer/Word types through the real parser table on every string of 0..3 bytes against the reference grammar (digits; sign only for signed types) incl. the parsed value; and for every integer, Word and fixed-point type (incl. Fix128/UFix128), fromBigEndianBytes(toBigEndianBytes(x)) == x for every x, the encoding is never longer than the type's size, and the converters never crash and stay in range on every byte array of every allowed length; plus the real bodies of the two byte/sign helpers that other checks summarise.",
+   note="Int/UInt bytes bounded by |x| < 2^128; fromString strings <= 3 bytes (strconv from source, big.Int.SetString by its documented grammar). toString (strconv.Format, big.Int.Text, fmt), fixed-point fromString and Address/Path string forms are outside the claim; the array-value layer and the wrapper's length gate are outside.",
    design="3 C17"),
  "C40": dict(
    text="Literal range checks: the real sema.CheckIntegerLiteral for all 20 sized/Word types + Int/UInt on an arbitrary integer value, and sema.CheckFixedPointLiteral / fixedpoint.New{Fix64,UFix64,Fix128,UFix128} on arbitrary (sign, integer part, fractional part, parsed scale): accepted exactly when the scale fits and the exact decimal value is in the type's range, and the converted value equals value*10^scale.",
@@ -58,8 +62,8 @@ CLAIMED = {
    text="Word8..Word256 + - * / %: solver shows for every operand pair that the real method never fails (except division by zero) and returns the exact result modulo 2^n.",
    note="Full width. Same assumptions and trusted base as C11.", design="3 C12"),
  "C13": dict(
-   text="Every saturating function the language declares for integer types (Int8..Int256 all four, UInt8..UInt256 add/subtract/multiply, UInt subtract): solver shows for every operand pair that the real method returns clamp(exact result) and fails only for division by zero.",
-   note="Full width. The declared set is taken from the language reference (a table in the generator). Fixed-point saturating functions: see evidence bounds (added with C15).", design="3 C13"),
+   text="Every saturating function the language declares for integer types (Int8..Int256 all four, UInt8..UInt256 add/subtract/multiply, UInt subtract) and for Fix64/Fix128 (all four) and UFix64/UFix128 (add/subtract/multiply): solver shows for every operand pair that the real method returns clamp(exact result) and fails only for division by zero.",
+   note="Full width. The declared set is taken from the language reference (a table in the generator). Fix128/UFix128: the arithmetic of the external fixed-point library is replaced by its documented contract (see C15).", design="3 C13"),
  "C35": dict(
    text="LEB128: for every uint32/uint64/int32/int64 the real Append* followed by Read* (with arbitrary trailing bytes) returns the same integer and the encoded length, the encoding has the canonical length, and the decoders never crash or over-read on any buffer of <= 11 bytes; AppendUint32FixedLength for every length 0..5.",
    note="Part of C35 only: LEB128 (full integer width; decoder buffers <= 11 bytes) and the instruction codec: for every instruction type found in bbq/opcode by go/types, Encode then DecodeInstruction returns the same instruction with the same operands and consumes exactly the encoding (operand arrays of length 0..2, thorough 3), plus PatchJumpBytecode. Compilation determinism is outside the claim (compiler over program ASTs is not encodable).", design="3 C35"),
@@ -95,7 +99,6 @@ NA_REASON = {
  "C41": "JSON codec uses encoding/json and reflection over value graphs",
  "C43": "JSON vs CCF agreement over value graphs",
  "C44": "fxamacker/cbor streaming codec; cross-version stability needs a stored corpus",
- "C45": "not built yet (stretch kernel: location type-ID round trip)",
  "C48": "program-level (events)", "C49": "program-level (attachments)", "C50": "program-level (access modifiers)",
  "C51": "not built yet",
  "C52": "program-level (evaluation order)",
